@@ -234,20 +234,38 @@ def prop_runs(case, r):
             r.check(ws[t1] == a['solve1'][0] - a['solve0'][0], 'work-solve-value', f'coincide={t1 in f6_region["end"]} t={t1!r}: logged {ws[t1]}, counted {a["solve1"][0] - a["solve0"][0]}')
         if 'u' in clean and t1 in us:
             r.check(np.asarray(us[t1]).tobytes() == s['uend'], 'solution-value', f'coincide={t1 in f6_region["end"]} t={t1!r}: logged solution differs from the step\'s end value')
-    # (3) restart counts of first slots: number of immediately preceding attempts at the same start time
+    # (3) restart counts of first slots. The library carries the count along with the steps (a step restarted in block b-1, as the failing
+    # step or as a follower of an earlier one, moves to slot i - first_restart with its count + 1; new steps start at 0). The statement speaks of
+    # the step's "true" restart count, i.e. of the time interval: the two readings coincide unless a step-size change re-partitions the time axis
+    # between the attempts (that divergence is the root cause of known finding F6) - such blocks are counted as ambiguous and not judged.
     raw_niter = [(k, v) for k, v in stats.items() if k.type == 'niter']
+    slot_counts = []
     for b, blk in enumerate(blocks):
-        c = 0
+        if b == 0:
+            slot_counts.append([0] * len(blk))
+            continue
+        prev = blocks[b - 1]
+        pf = [s['restart'] for s in prev]
+        pfr = pf.index(True) if True in pf else len(pf)
+        moved = [c + 1 for c in slot_counts[b - 1][pfr:]]
+        slot_counts.append((moved + [0] * len(blk))[: len(blk)])
+    for b, blk in enumerate(blocks):
+        t = blk[0]['time']
+        c_time = 0
         j = b - 1
         while j >= 0:
             pf = [s['restart'] for s in blocks[j]]
             pfr = pf.index(True) if True in pf else len(pf)
-            if pfr < len(pf) and blocks[j][pfr]['time'] == blk[0]['time']:
-                c += 1
+            if any(s['time'] == t and s['dt'] == blk[0]['dt'] for s in blocks[j][pfr:]):
+                c_time += 1
                 j -= 1
             else:
                 break
-        keys = [k for k, v in raw_niter if k.time == blk[0]['time'] and k.num_restarts == c]
+        c = slot_counts[b][0]
+        if c != c_time:
+            r.label('restart-count-ambiguous')
+            continue
+        keys = [k for k, v in raw_niter if k.time == t and k.num_restarts == c]
         r.check(len(keys) >= 1, 'restart-count-key', f'block {b}: no niter record at t={blk[0]["time"]!r} with num_restarts={c} (have {[k.num_restarts for k, v in raw_niter if k.time == blk[0]["time"]]})')
     # (4) filters on real stats behave like comprehensions
     for flt in ({'type': 'niter'}, {'type': 'u', 'level': 0}, {'process': 0}, {'num_restarts': 0, 'type': 'dt'}):
